@@ -54,6 +54,8 @@ pub fn node_to_inst(n: &ParserNode) -> Option<Inst> {
                 IArithType::Sltiu => IOp::Sltiu,
                 // the node stores the already shifted value
                 IArithType::Lui => return Some(Inst::Li(rd, imm)),
+                // the node stores the already shifted value
+                IArithType::Auipc if rs1 == 0 => return Some(Inst::Auipc(rd, ((imm as u32) >> 12) as i32)),
                 _ => return None,
             };
             Inst::I(op, rd, rs1, imm)
